@@ -409,7 +409,7 @@ class Engine:
         # resource limits instead of wall-clock timeouts: deterministic, and no z3 timer threads (z3 5.1's scoped_timer
         # was seen dead-locked in its destructor, spinning in sched_yield forever, after a few million timed checks)
         self.rlimit = int(os.environ.get('SYMX_RLIMIT', 2000000))
-        self.fallback_rlimit = int(os.environ.get('SYMX_FALLBACK_RLIMIT', 120000000))
+        self.fallback_rlimit = int(os.environ.get('SYMX_FALLBACK_RLIMIT', 15000000))
         self.solver.set('rlimit', self.rlimit)
         self.solver_timeout_ms = solver_timeout_ms
         self._fresh_model = None
